@@ -157,6 +157,36 @@ def run(spec, ctx):
                 for al in (False, True):
                     check_compound_case(ctx, comp, doc, Renderer(r, blanks=0.1, alias=al).compound(comp), "compound-fake-root", extra=extra)
     else:
+        import jsonpath as _jp
+
+        for _ in range(40):
+            # one compiled query, one document object, one context mapping object updated in place
+            live = {"k": 2, "list": ["a", 2], "o": {"a": 1, "b": {"k": 3}}, "s": "xaby", "names": ["a", "b"], "n": None, "limit": 2}
+            doc = gen.ext_doc(r, ["a", "b", "k", "v"])
+            fgl = gen.ExtFilterGen(r, ["a", "b", "k", "v"], max_depth=2)
+            ctxq = r.choice([["cmp", "==", ["sq", ["q", "@", [["child", [["name", "k"]]]]]], ["sq", ["q", "_", [["child", [["name", "k"]]]]]]],
+                             ["cmp", "in", ["key"], ["sq", ["q", "_", [["child", [["name", "names"]]]]]]], ["cmp", "in", ["sq", ["q", "@", []]], ["sq", ["q", "_", [["child", [["name", "list"]]]]]]],
+                             ["test", ["q", "@", [["child", [["filter", ["cmp", "==", ["sq", ["q", "@", []]], ["sq", ["q", "_", [["child", [["name", "k"]]]]]]]]]]]]]])
+            ast = ["q", "$", [[r.choice(["child", "desc"]), [["filter", ["or", ctxq, ["and", fgl.logical(), ["test", ["q", "_", [["child", [["name", "zz"]]]]]]]]]]]]]
+            text = Renderer(r, blanks=0.1).top(ast)
+            cp = impl.call(_jp.compile, text)
+            if not cp.ok:
+                continue
+            for step in range(4):
+                ctx.evaluation()
+                try:
+                    model = ref.eval_query(ast, doc, extra=live)
+                except ref_regex.Unsupported:
+                    break
+                got = impl.call(lambda: impl.match_records(cp.value.finditer(doc, filter_context=live)))
+                ctx.count("compiled_reuse_with_in_place_context_updates")
+                diff = got.desc() if not got.ok else impl.nodes_equal(got.value, model)
+                if diff:
+                    ctx.violation("filter-context-identifier-reads-stale-data-after-an-in-place-update", {"class": "live-context", "ast": ast, "doc": doc, "text": text, "extra": dict(live)}, {"text": text, "step": step, "context": canon(live), "diff": diff})
+                    break
+                live["k"] = r.choice([2, 3, "a", None, 10])
+                live["names"] = r.sample(["a", "b", "k", "v", ""], 2)
+                live["list"] = [r.choice(gen.MEM_LEAVES) for _ in range(3)]
         for i in range(spec["n"]):
             names = r.sample(["a", "b", "c", "k", "v", "é", "0"], r.randint(2, 4))
             fg = gen.ExtFilterGen(r, names, max_depth=spec["depth"])
